@@ -109,6 +109,30 @@ def getUserRoles (env : Env) (user : User) (o : Obj) : List String :=
 /-- `get_object_labels(obj)` -/
 def getObjectLabels (env : Env) (o : Obj) : List String := env.labelsOf o
 
+/-! ### the getter registries: `usergroup_functions` and how an answer is folded into the result
+
+`for cls, func in usergroup_functions: if cls is None or isinstance(user, cls): groups = func(user); …` — a getter may
+answer a single name (a `str`, added as ONE name, never split), `None` (nothing) or an iterable (all its names). -/
+
+inductive Answer where
+  | single (s : String)
+  | nothing
+  | many (l : List String)
+  deriving DecidableEq, Repr
+
+/-- `result.add(groups)` / nothing / `result.update(groups)` -/
+def collect (acc : List String) : Answer → List String
+  | .single s => acc ++ [s]
+  | .nothing => acc
+  | .many l => acc ++ l
+
+/-- the loop over the registered getters, in registration order: `(cls is None or isinstance(user, cls), func(user))` -/
+def foldGetters (gs : List (Bool × Answer)) : List String :=
+  gs.foldl (fun acc g => if g.1 then collect acc g.2 else acc) []
+
+/-- `get_user_groups` for a user that is not None and not cached: `{'anybody'}` plus what the applicable getters answer -/
+def groupsFromGetters (gs : List (Bool × Answer)) : List String := "anybody" :: foldGetters gs
+
 /-! ### the three loops of `has_perm` -/
 
 /-- `for rule in access_rules: if user_groups.issuperset(rule.groups) and entity not in rule.entities_to_exclude: result = True; break` -/
